@@ -33,6 +33,9 @@ def resolve(path):
         return None
 
 
+CALLBACK_ERRORS = Counter()     # harness faults inside probe callbacks: the shard is reported as failed (inconclusive)
+
+
 class Probes:
     def __init__(self):
         self.counts = Counter()
@@ -84,12 +87,18 @@ class Probes:
         self.counts[name] += 1
         h = self._start.get(code)
         if h is not None:
-            h(sys._getframe(1))
+            try:
+                h(sys._getframe(1))
+            except Exception as e:      # a failing probe must never raise into the code it watches
+                CALLBACK_ERRORS['%s: %s: %s' % (name, type(e).__name__, str(e)[:80])] += 1
 
     def _on_return(self, code, offset, retval):
         h = self._ret.get(code)
         if h is not None:
-            h(sys._getframe(1), retval)
+            try:
+                h(sys._getframe(1), retval)
+            except Exception as e:
+                CALLBACK_ERRORS['%s: %s: %s' % (self._names.get(code), type(e).__name__, str(e)[:80])] += 1
 
     def reach(self):
         d = {n: self.counts.get(n, 0) for n in self._names.values()}
